@@ -86,8 +86,13 @@ def gen_tags(rng, d):
             feats['GN'] = rng.choice([feats['GN'] + [''], [''] + feats['GN'], ['']])      # empty parts / empty tag value
     if rng.random() < 0.85:
         feats['DA'] = [rng.choice(['ref', 'alt'])]
-    if rng.random() < 0.8:
+    fq = {}
+    u = rng.random()
+    if u < 0.5:
         nums['XV'] = rng.choice([0, 1, 2, 5])
+    elif u < 0.85:      # float typed value tag (XV:f:..), multiples of 1/4 incl. integer valued floats; recorded in quarters
+        fq['XV'] = rng.choice([0, 1, 2, 3, 10, 16, 16, 4, 30])
+    d['fq'] = fq
     if rng.random() < 0.7:
         nums[rng.choice(['bi', 'BI'])] = rng.choice([0, 1, 7])      # cell index under the old or the new tag name
     d['feats'], d['nums'] = feats, nums
@@ -198,6 +203,8 @@ def to_segment(header, d):
         tags[k] = ','.join(v)
     for k, v in d['nums'].items():
         tags[k] = int(v)
+    for k, v in d.get('fq', {}).items():
+        tags[k] = (v / 4.0, 'f')
     return bamgen.make_read(
         header, d['name'], d['contig'] or None, d['start'], ('ACGTTGCA' * 10)[:d['qlen']],
         cigar=d['cigar'] or None, read1=d['mate'] == 1, read2=d['mate'] == 2, paired=d['paired'], proper=d['proper'],
